@@ -219,6 +219,49 @@ Module LeafKernels.
     measure_homog k m m'.
   Proof. exact measure_homog_of_eq. Qed.
   Print Assumptions C04_measure_equational.
+
+  (* ---- non-vacuity (computed): a content-box block leaf with a scrollbar, percentage padding / margin / max-height, an
+     echoing measure function, a definite parent and available width: the call succeeds (Some, one measure call) and every
+     output length of the 4x scaled run is 4x the original; same through compute_root_layout *)
+  Definition ex04_style : Style XQ :=
+    mkStyle DBlock Relative ContentBox (mkPoint Visible Scroll) (Fin 12)
+            (mkSize Auto Auto) (mkSize Auto (Length (Fin 5))) (mkSize (Length (Fin 90)) (Percent (Fin (1#2)))) None
+            (mkRect (Length (Fin 3)) Auto (Length (Fin 7)) (Percent (Fin (1#4))))
+            (mkRect (LpLength (Fin 1)) (LpLength (Fin 2)) (LpLength (Fin 3)) (LpPercent (Fin (1#10))))
+            (mkRect (LpLength (Fin 1)) (LpLength (Fin 1)) (LpLength (Fin 1)) (LpLength (Fin 1))).
+  Definition ex04_input : LayoutInput XQ :=
+    mkInput PerformLayout InherentSize (mkSize None None) (mkSize (Some (Fin 200)) (Some (Fin 100)))
+            (mkSize (Definite (Fin 200)) MaxContent).
+  Definition ex04_view (r : option (LayoutOutput XQ * list (MeasureCall XQ))) :=
+    option_map (fun p => (x_red (width (out_size (fst p))), x_red (height (out_size (fst p))),
+                          x_red (width (out_content_size (fst p))), length (snd p))) r.
+  Example C04_leaf_example :
+    measure_homog 4 (measure_echo (Fin 40)) (measure_echo (x_scale 4 (Fin 40))) /\
+    ex04_view (compute_leaf_layout ex04_input ex04_style (measure_echo (Fin 40))) = Some (Fin 57, Fin 45, Fin 43, 1%nat) /\
+    ex04_view (compute_leaf_layout (input_scale 4 ex04_input) (style_scale 4 ex04_style) (measure_echo (x_scale 4 (Fin 40))))
+      = Some (Fin 228, Fin 180, Fin 172, 1%nat).
+  Proof. split; [apply measure_echo_homog; reflexivity | split; vm_compute; reflexivity]. Qed.
+  Definition ex04_lview (r : option (Layout XQ * list (MeasureCall XQ))) :=
+    option_map (fun p => (x_red (px (l_location (fst p))), x_red (py (l_location (fst p))), x_red (width (l_size (fst p))),
+                          x_red (height (l_size (fst p))), length (snd p))) r.
+  Definition ex04_avail : Size (AvailableSpace XQ) := mkSize (Definite (Fin 200)) MaxContent.
+  Example C04_root_leaf_example :
+    ex04_lview (root_leaf ex04_style (measure_echo (Fin 40)) ex04_avail) = Some (Fin 0, Fin 0, Fin 95, Fin 45, 1%nat) /\
+    ex04_lview (root_leaf (style_scale 4 ex04_style) (measure_echo (x_scale 4 (Fin 40))) (savail_scale 4 ex04_avail))
+      = Some (Fin 0, Fin 0, Fin 380, Fin 180, 1%nat).
+  Proof. split; vm_compute; reflexivity. Qed.
+  (* both premises of C04_measure_equational hold of the fixed-size measure function *)
+  Example C04_measure_equational_premises : forall k w h,
+    measure_proper (measure_fixed (x_scale k w) (x_scale k h)) /\
+    (forall kd av, sz_rel dl (size_scale k (measure_fixed w h kd av))
+                            (measure_fixed (x_scale k w) (x_scale k h) (osize_scale k kd) (savail_scale k av))).
+  Proof.
+    intros k w h. split.
+    - intros kd kd' av av' [Hw Hh] _. unfold measure_fixed. split; cbn [width height].
+      + destruct (width kd), (width kd'); cbn in Hw |- *; try contradiction; [exact Hw|apply dl_refl].
+      + destruct (height kd), (height kd'); cbn in Hh |- *; try contradiction; [exact Hh|apply dl_refl].
+    - intros kd av. unfold measure_fixed, size_scale, osize_scale. destruct kd as [[a|] [b|]]; split; cbn; apply dl_refl.
+  Qed.
 End LeafKernels.
 
 (* ------------------------------------------------------------------------------------------------------------ *)
@@ -274,6 +317,42 @@ Module AbsKernels.
     arc_rel dl (o_margin (absout_scale k o)) (o_margin o').
   Proof. exact absout_rel_iff. Qed.
   Print Assumptions C04_abs_related_is_scaled.
+
+  (* ---- non-vacuity: a homogeneous measure function for the absolute kernels, and one absolutely positioned child
+     (content-box, 40 wide, 30% max width, percentage left inset, bottom inset, a top margin, padding and border 1) in a
+     200x100 container with border 2, padding 5 and a 15px horizontal scrollbar, in all three container kinds, k = 5/2 *)
+  Definition abs_measure_fixed (w h : XQ) : Size (option XQ) -> Size XQ :=
+    fun kd => mkSize (match s_width kd with Some v => v | None => w end) (match s_height kd with Some v => v | None => h end).
+  Example C04_abs_measure_example : forall k w h,
+    abs_measure_homog k (abs_measure_fixed w h) (abs_measure_fixed (x_scale k w) (x_scale k h)).
+  Proof.
+    intros k w h kd kd' [Hw Hh]. unfold abs_measure_fixed. split; cbn [s_width s_height].
+    - destruct (s_width kd), (s_width kd'); cbn in Hw; try contradiction; [exact Hw|apply sc_self].
+    - destruct (s_height kd), (s_height kd'); cbn in Hh; try contradiction; [exact Hh|apply sc_self].
+  Qed.
+  Definition ex_ct : @Container XQ :=
+    mkContainer (mkSize (Fin 200) (Fin 100)) (mkRect (Fin 2) (Fin 2) (Fin 2) (Fin 2)) (mkRect (Fin 5) (Fin 5) (Fin 5) (Fin 5))
+                (mkPoint (Fin 0) (Fin 15)).
+  Definition ex_abs_st : AbsStyle XQ :=
+    mkAbsStyle (mkSize (DLength (Fin 40)) DAuto) (mkSize DAuto DAuto) (mkSize (DPercent (Fin (3#10))) DAuto)
+               (mkRect (DPercent (Fin (1#10))) DAuto DAuto (DLength (Fin 8)))
+               (mkRect DAuto DAuto (DLength (Fin 3)) DAuto)
+               (mkRect (DLength (Fin 1)) (DLength (Fin 1)) (DLength (Fin 1)) (DLength (Fin 1)))
+               (mkRect (DLength (Fin 1)) (DLength (Fin 1)) (DLength (Fin 1)) (DLength (Fin 1)))
+               None BS_ContentBox None None Pos_Absolute.
+  Definition ex_abs_view (o : AbsOut XQ) :=
+    (x_red (p_x (o_location o)), x_red (p_y (o_location o)), x_red (s_width (o_size o)), x_red (s_height (o_size o))).
+  Example C04_abs_example :
+    let k := 5 # 2 in let sp := mkPoint (Fin 7) (Fin 9) in
+    let m := abs_measure_fixed (Fin 25) (Fin 10) in let m' := abs_measure_fixed (x_scale k (Fin 25)) (x_scale k (Fin 10)) in
+    ex_abs_view (abs_block_style ex_ct sp ex_abs_st m) = (Fin (108 # 5), Fin 2, Fin 44, Fin 10) /\
+    ex_abs_view (abs_block_style (container_scale k ex_ct) (apoint_scale k sp) (absstyle_scale k ex_abs_st) m') = (Fin 54, Fin 5, Fin 110, Fin 25) /\
+    ex_abs_view (abs_flex_style (flex_constants ex_ct FD_Row false (Some AC_Center) AI_End) ex_abs_st m) = (Fin (498 # 5), Fin (-22), Fin 44, Fin 10) /\
+    ex_abs_view (abs_flex_style (flex_constants (container_scale k ex_ct) FD_Row false (Some AC_Center) AI_End) (absstyle_scale k ex_abs_st) m')
+      = (Fin 249, Fin (-55), Fin 110, Fin 25) /\
+    ex_abs_view (abs_grid_style ex_ct (Some AI_Center) None ex_abs_st m) = (Fin (108 # 5), Fin 65, Fin 44, Fin 10) /\
+    ex_abs_view (abs_grid_style (container_scale k ex_ct) (Some AI_Center) None (absstyle_scale k ex_abs_st) m') = (Fin 54, Fin (325 # 2), Fin 110, Fin 25).
+  Proof. repeat split; vm_compute; reflexivity. Qed.
 End AbsKernels.
 
 (* ------------------------------------------------------------------------------------------------------------ *)
@@ -361,7 +440,7 @@ Print Assumptions C04_threshold_note.
       instantiates to f (scale k x) ~ scale k (f x).  Loops are fuelled: the fuel is a function of the number of items /
       tracks, hence the same on both sides.  No finiteness premise anywhere. *)
 
-From TV Require Gen.FlexGen Model.Flex Model.ScaleFlex Proofs.ScaleFlex.
+From TV Require Gen.FlexGen Model.Flex Model.ScaleFlex Proofs.ScaleFlex Proofs.FlexProofs.
 From TV Require Gen.BlockGen Model.Block Model.ScaleBlock Proofs.ScaleBlock.
 From TV Require Gen.GridTracksGen Model.GridTracks Model.ScaleGrid Proofs.ScaleGrid.
 
@@ -369,6 +448,7 @@ From TV Require Gen.GridTracksGen Model.GridTracks Model.ScaleGrid Proofs.ScaleG
 (** ** Flexbox main axis (Model/Flex.v over the regenerated Gen/FlexGen.v) *)
 Module FlexKernels.
   Import TV.Gen.FlexGen TV.Model.Flex TV.Model.ScaleFlex TV.Proofs.ScaleKit TV.Proofs.ScaleFlex.
+  Import ListNotations.
   Local Open Scope Q_scope.
 
   (* the three generated tables: sum_axis_gaps and compute_alignment_offset are lengths, the alignment fallback
@@ -433,6 +513,37 @@ Module FlexKernels.
     apply (combine_placed_rel k). apply (distribute_remaining_free_space_homog k Hk); assumption. exact Hsz.
   Qed.
   Print Assumptions C04_flex_line.
+
+  (* the `op_rel` of the two theorems above relates None (loop out of fuel) to None; that reading is excluded: the loop
+     terminates within its fuel for ALL values (C07_loop_terminates), so both runs return items, and they are related *)
+  Theorem C04_flex_resolve_flexible_lengths_total : forall k items gap inner_main, 0 < k ->
+    exists r r', resolve_flexible_lengths items gap inner_main = Some r /\
+                 resolve_flexible_lengths (map (item_scale k) items) (x_scale k gap) (opt_scale k inner_main) = Some r' /\
+                 items_rel k r r'.
+  Proof.
+    intros k items gap im Hk.
+    pose proof (resolve_flexible_lengths_homog k Hk items (map (item_scale k) items) gap (x_scale k gap) im (opt_scale k im)
+                  (items_rel_scale k items) (sc_self k gap) (op_rel_scale k im)) as H.
+    destruct (TV.Proofs.FlexProofs.loop_terminates items gap im) as [r Er].
+    destruct (TV.Proofs.FlexProofs.loop_terminates (map (item_scale k) items) (x_scale k gap) (opt_scale k im)) as [r' Er'].
+    rewrite Er, Er' in H. exists r, r'. repeat split; assumption.
+  Qed.
+  Print Assumptions C04_flex_resolve_flexible_lengths_total.
+  (* three items (grow 1 with max 50 and margin 4, grow 2, grow 0 / shrink 1/2 with min 10), gap 6: growing into 300 and
+     shrinking into 100, original and scaled by 1/4 *)
+  Definition ex_item (b g s mn : Q) (mx : option Q) (ms : Q) : FlexItem XQ :=
+    mkItem (Fin b) (Fin b) (Fin b) (Fin (b + ms)) (Fin mn) (option_map Fin mx) (Fin g) (Fin s) (Fin ms) (Fin 0) false false (Fin 0)
+           false (Fin 0) (Fin 0) (Fin 0) (Fin 0).
+  Definition ex_items : list (FlexItem XQ) :=
+    [ex_item 40 1 1 0 (Some 50) 4; ex_item 60 2 1 0 None 0; ex_item 30 0 (1#2) 10 None 0].
+  Definition ex_targets (r : option (list (FlexItem XQ))) := option_map (map (fun c => (x_red (fi_target c), fi_frozen c))) r.
+  Definition ex_scaled (k : Q) (im : Q) := resolve_flexible_lengths (map (item_scale k) ex_items) (x_scale k (Fin 6)) (opt_scale k (Some (Fin im))).
+  Example C04_flex_example :
+    ex_targets (resolve_flexible_lengths ex_items (Fin 6) (Some (Fin 300))) = Some [(Fin 50, true); (Fin 204, true); (Fin 30, true)] /\
+    ex_targets (ex_scaled (1#4) 300) = Some [(Fin (25 # 2), true); (Fin 51, true); (Fin (15 # 2), true)] /\
+    ex_targets (resolve_flexible_lengths ex_items (Fin 6) (Some (Fin 100))) = Some [(Fin 24, true); (Fin 36, true); (Fin 24, true)] /\
+    ex_targets (ex_scaled (1#4) 100) = Some [(Fin 6, true); (Fin 9, true); (Fin 6, true)].
+  Proof. repeat split; vm_compute; reflexivity. Qed.
 End FlexKernels.
 
 (* ------------------------------------------------------------------------------------------------------------ *)
@@ -510,7 +621,9 @@ Module BlockKernels.
   Qed.
   Print Assumptions C04_block_compute_inner.
 
-  (* the composition compute_inner performs around the loop (the one the C10 correspondence K2 runs): items from the
+  (* the composition compute_inner performs around the loop (a restatement over XQ of what the runner of the C10
+     correspondence K2, Model/BlockRun.v run_case2, composes -- that runner filters display:none outputs itself, block_container
+     expects them already filtered): items from the
      children's styles, loop constants from the container's style, the loop, then the container's outer height, margin
      sets and collapse-through flag (block_container, Model/ScaleBlock.v) -- from the container's style, its inputs, its
      outer width, the children's styles and the children's LayoutOutputs, all scaled *)
@@ -631,7 +744,7 @@ Module GridKernels.
   (* KNOWN FINDING grid-track-threshold-absolute, now on the kernels themselves: with the fixed threshold neither is
      homogeneous.  Witness: one column minmax(0px, 1px) in a container 1/16 px wide grows to 1/16; at k = 1/8 the free
      space 1/128 is below 0.01, the loop does not run and the column stays 0 (expected 1/128).  Replayed on the
-     implementation (`vh c09 one`, lib/props/c04.py): column 0.0625 px, scaled 0 px instead of 0.0078125 px. *)
+     implementation (`vh c04 gridwitness`, lib/props/c04.py): column 0.0625 px, scaled 0 px instead of 0.0078125 px. *)
   Theorem C04_grid_maximise_refuted :
     (exists k inner a ts, 0 < k /\
        ~ tracks_rel k (maximise_tracks inner a ts) (maximise_tracks (opt_scale k inner) (gavail_scale k a) (map (track_scale k) ts))) /\
@@ -716,6 +829,47 @@ Module GridKernels.
     - apply tracks_rel_scale.
   Qed.
   Print Assumptions C04_grid_track_sizing_partial.
+
+  (* ---- non-vacuity of the premises above: the `affected` predicates the callers pass are invariant; the 11.5 premise of
+     C04_grid_track_sizing_partial is met by flush + maximise; and a three-track run (fixed-limit, auto, minmax) where the
+     threshold-insensitive form applies, original and scaled by 1/8.
+     NOTE on fuel: distribute_loop / fr_loop return their current state when the fuel runs out (no marker).  The fuel is a
+     function of the track count only, so both runs of a homogeneity statement run out together and the statements stay true;
+     that the fuel suffices is C09_distribute_terminates / C09_intrinsic_distribute_terminates / C09_fr_terminates (finite
+     inputs), not repeated here. *)
+  Example C04_grid_affected_inv_examples : forall k,
+    affected_inv k (fun _ => true) (fun _ => true) /\
+    affected_inv k (fun t => is_flexible t) (fun t => is_flexible t) /\
+    affected_inv k (fun t => is_intrinsic (maxf t)) (fun t => is_intrinsic (maxf t)) /\
+    affected_inv k (fun t => is_min_content (minf t) || is_auto (minf t)) (fun t => is_min_content (minf t) || is_auto (minf t)).
+  Proof.
+    intros k. repeat split; intros t t' Ht.
+    - apply (rel_is_flexible k); exact Ht.
+    - apply (rel_is_intrinsic k). apply Ht.
+    - destruct Ht as (_ & _ & Hmin & _). rewrite (rel_is_min_content k _ _ Hmin), (rel_is_auto k _ _ Hmin). reflexivity.
+  Qed.
+  Example C04_grid_track_sizing_premise_examples : forall k inner a, 0 < k ->
+    (forall x x', tracks_rel k x x' -> tracks_rel k (flush_incurred_to_base x) (flush_incurred_to_base x')) /\
+    (forall x x', tracks_rel k x x' ->
+       tracks_rel k (maximise_tracks_t (Fin (DISTRIBUTE_THRESHOLD_Q / k)) inner a x)
+                    (maximise_tracks (opt_scale k inner) (gavail_scale k a) x')).
+  Proof.
+    intros k inner a Hk. split; intros x x' Hx.
+    - apply (rel_flush_incurred_to_base k); exact Hx.
+    - change (maximise_tracks (T := XQ)) with (maximise_tracks_t (T := XQ) threshold).
+      apply (maximise_tracks_homog k Hk); [apply threshold_div_scale; exact Hk | apply op_rel_scale | apply gavail_rel_scale | exact Hx].
+  Qed.
+  Definition ex_track (mn mx : sfn XQ) (b g : XQ) : track XQ := mk_track KTrack false mn mx zero b g zero zero zero false.
+  Definition ex_tracks : list (track XQ) :=
+    [ex_track (SLength (Fin 0)) (SLength (Fin 40)) (Fin 0) (Fin 40); ex_track SAuto SAuto (Fin 10) PInf;
+     ex_track (SLength (Fin 20)) (SLength (Fin 25)) (Fin 20) (Fin 25)].
+  Definition bases (ts : list (track XQ)) := map (fun t => x_red (base_size t)) ts.
+  Example C04_grid_insensitive_example :
+    maximise_tracks_t (Fin (DISTRIBUTE_THRESHOLD_Q / (1#8))) None (Definite (Fin 300)) ex_tracks = maximise_tracks None (Definite (Fin 300)) ex_tracks /\
+    bases (maximise_tracks None (Definite (Fin 300)) ex_tracks) = [Fin 45; Fin 230; Fin 25] /\
+    bases (maximise_tracks (opt_scale (1#8) None) (gavail_scale (1#8) (Definite (Fin 300))) (map (track_scale (1#8)) ex_tracks))
+      = [Fin (45 # 8); Fin (115 # 4); Fin (25 # 8)].
+  Proof. repeat split; vm_compute; reflexivity. Qed.
 End GridKernels.
 
 (* ------------------------------------------------------------------------------------------------------------ *)
@@ -732,6 +886,7 @@ End GridKernels.
 From TV Require Model.Engine Model.EngineRel Proofs.EngineRelProofs.
 From TV Require Model.BlockAlg Model.BlockEngine Model.BlockEngineRel Model.BlockEngineExample.
 From TV Require Proofs.BlockAlgRel Proofs.EngineHomog Proofs.EngineExamples.
+From TV Require Model.BlockLeaf Model.BlockTree.
 
 Module EngineLevel.
   Import TV.Model.Engine TV.Model.EngineRel TV.Proofs.EngineRelProofs.
@@ -854,12 +1009,25 @@ End EngineLevel.
    parameters satisfying PreRel / AbsChildRel (C04_block_algorithm_homogeneous) and these are discharged for `block_pre`
    (the model of block.rs l.64-122) and `abs_child_simple`.  The real absolute-item routine (C04_abs_block is about its
    kernel, in the vocabulary of Model/AbsPos.v) is not plugged in: AbsChildRel stays a premise for it.  Flex and grid
-   containers: Homogeneous remains a premise (C04_engine), and is FALSE for flex in the known-finding class. *)
+   containers: Homogeneous remains a premise (C04_engine), and is FALSE for flex in the known-finding class.
+
+   What the theorems of this module are NOT (audit, wave 5c) -- they are PARTIAL with respect to the property:
+   * `bl_algo` lays out EVERY node that has children with the block algorithm, whatever its `display` (there is no premise
+     display = block): the statements are about trees of block containers and leaves only;
+   * the absolute pass uses `abs_child_simple`, a deliberately simple one-query routine, not the translated routine of
+     Gen/AbsPosGen.v (in the example below the absolute child, style 10 x 10, gets the box 0 x 0);
+   * the memo is the exact-key memo and the root input is given directly (no compute_root_layout);
+   * `bl_memo` is not executed by any correspondence runner: K1 of C10 runs Model/BlockTree.v (another assembly of the same
+     kernels, with the lossy cache rule), K2 the in-flow kernel with recorded child outputs.  See
+     C04_block_engine_agrees_with_K1_model for the (example-level) tie;
+   * "both evaluations fail" (None) is possible in the `oprel` conclusions; it is excluded on the examples by computation and in
+     general by C01_memo_total for algorithms that address existing children only (not instantiated for bl_algo here). *)
 Module BlockTrees.
   Import TV.Gen.BlockGen TV.Model.Block TV.Model.ScaleBlock TV.Proofs.ScaleKit TV.Proofs.ScaleBlock.
   Import TV.Model.Engine TV.Model.EngineRel TV.Proofs.EngineRelProofs.
   Import TV.Model.BlockAlg TV.Model.BlockEngine TV.Model.BlockEngineRel TV.Model.BlockEngineExample.
   Import TV.Proofs.BlockAlgRel TV.Proofs.EngineHomog TV.Proofs.EngineExamples.
+  Import TV.Model.BlockLeaf TV.Model.BlockTree.
   Import ListNotations.
 
   (* the block resumption, any parameters *)
@@ -964,4 +1132,60 @@ Module BlockTrees.
     repeat split; vm_compute; reflexivity.
   Qed.
   Print Assumptions C04_block_engine_example.
+
+  (* two PASSES (C04_engine_passes): `pass` maps a failed evaluation to "tree unchanged", so its conclusion could hold because
+     nothing happened; here neither pass fails on either tree, the stored layouts change between the passes, and after the
+     second pass every stored layout of the scaled tree is 5/2 times the original's *)
+  Definition ex_input2 : BIn XQ := root_bin (mkSize (Some (qz 120)) None) (mkSize (Definite (qz 120)) (Definite (qz 400))).
+  Definition ex_two_passes (k : Q) (t t' : sk (BNode XQ)) : bool :=
+    match ex_run t ex_input_max, ex_run t' (bin_scale k ex_input_max) with
+    | Some (_, t1), Some (_, t1') =>
+        match bl_memo block_pre abs_child_simple ex_fuel t1 ex_input2, bl_memo block_pre abs_child_simple ex_fuel t1' (bin_scale k ex_input2) with
+        | Some (o, t2), Some (o', t2') =>
+            list_eqb blay_eqb (map (blay_scale k) (ex_lays t2)) (ex_lays t2') && bout_eqb (bout_scale k o) o'
+            && negb (list_eqb blay_eqb (ex_lays t1) (ex_lays t2)) && bsz_eqb (co_size o) (mkSize (qz 120) (qz 44))
+        | _, _ => false
+        end
+    | _, _ => false
+    end.
+  Example C04_block_engine_passes_example : ex_two_passes (5 # 2) ex_subtree (ex_subtree_scaled (5 # 2)) = true.
+  Proof. vm_compute. reflexivity. Qed.
+  Definition ex_pass := pass (BNode XQ) (BIn XQ) (ChildOut XQ) (BLayout XQ) bi_mode bin_eqb bn_is_none hidden_child_out zero_blay
+                             (bl_algo block_pre abs_child_simple).
+  Example C04_block_engine_passes_fold :
+    list_eqb blay_eqb
+      (map (blay_scale (5 # 2)) (ex_lays (fold_left ex_pass [(ex_fuel, ex_input_max); (ex_fuel, ex_input2)] (bl_fresh ex_subtree))))
+      (ex_lays (fold_left ex_pass [(ex_fuel, bin_scale (5 # 2) ex_input_max); (ex_fuel, bin_scale (5 # 2) ex_input2)]
+                          (bl_fresh (ex_subtree_scaled (5 # 2))))) = true.
+  Proof. vm_compute. reflexivity. Qed.
+
+  (* TIE of this engine instance to the K-checked block model.  bl_memo (Engine.memo + BlockAlg.block_inner_alg + the leaf
+     adapter) is NOT what a runner executes: the correspondence K1 of C10 runs Model/BlockTree.v `block_root_layout` (its own
+     compute_inner with the lossy cache rule and Model/BlockLeaf.v leaves), K2 runs the in-flow kernel with recorded child
+     outputs.  The two share block_resolve / generate_item / block_params / inflow_step / block_outer_height /
+     block_output_margins / block_can_collapse_through; there is no lemma equating them.  As a check that they are not two
+     different algorithms: on a block container of three leaves (fixed-width leaf, display:none leaf, leaf with min-width and
+     max-height; padding 3, border 1) both give the same container size and the same child boxes, for the content-based width
+     (max-content: 60 x 44) and for the stretch-fit width (definite 300: 300 x 44) *)
+  Definition xC := (ex_style DBlock true PRelative (mkSize (len 50) Auto) auto2 auto2 1 0 0, EFixed (qz 40) (qz 20)).
+  Definition xD := (ex_style DNone true PRelative (mkSize (len 70) (len 70)) auto2 auto2 1 0 0, EFixed (qz 5) (qz 5)).
+  Definition xG := (ex_style DBlock true PRelative auto2 (mkSize (len 20) Auto) (mkSize Auto (len 8)) 2 1 0, EFixed (qz 10) (qz 30)).
+  Definition xB := ex_style DBlock true PRelative auto2 auto2 auto2 3 1 6.
+  Definition to_m (m : ExMeasure) : Measure XQ := match m with EFixed w h => MFixed w h | EEcho _ => MNone end.
+  Definition xkids := [xC; xD; xG].
+  Definition xtree : sk (BNode XQ) := sk_map ex_node (SNode _ (xB, EFixed (qz 0) (qz 0)) (map (fun c => SNode _ c []) xkids)).
+  Definition xav : BSize (Avail XQ) := mkSize MaxContent MaxContent.
+  Definition xav2 : BSize (Avail XQ) := mkSize (Definite (qz 300)) (Definite (qz 400)).
+  Definition k1 (a : BSize (Avail XQ)) := block_root_layout xB a (map (fun c => (fst c, to_m (snd c))) xkids).
+  Definition eng (a : BSize (Avail XQ)) := bl_memo block_pre abs_child_simple 6 (bl_fresh xtree) (root_bin (root_known xB a) a).
+  Definition k1_boxes (a : BSize (Avail XQ)) :=
+    map (fun r => (ir_x r, ir_y r, s_w (ir_size r), s_h (ir_size r))) (io_results (to_inflow (k1 a))).
+  Definition eng_agrees (a : BSize (Avail XQ)) : bool :=
+    match eng a with
+    | Some (o, t1) => bsz_eqb (co_size o) (to_size (k1 a)) &&
+                      match boxes t1 with [_; c; _; g] => list_eqb box_eqb [c; g] (k1_boxes a) | _ => false end
+    | None => false
+    end.
+  Example C04_block_engine_agrees_with_K1_model : eng_agrees xav = true /\ eng_agrees xav2 = true.
+  Proof. split; vm_compute; reflexivity. Qed.
 End BlockTrees.
